@@ -34,6 +34,11 @@ func runC13(r *an.Run) {
 	c13OrderOnly(r)
 	memoDependencies(r, "R4-no-spelling-is-special")
 	lineInfoReceiver(r, "R6-change-names-do-not-steer-positions")
+	// a line is a '-' / '+' line exactly when its FIRST BYTE is the marker: a space-prefixed line is context
+	// whatever its Go code starts with (a unary minus at the start of a wrapped line), so writing an unchanged
+	// line once with a space prefix means the same as writing it as an identical '-'/'+' pair
+	c01SplitPatch(r)
+	relabel(r, "R9-minus-plus-split", "R7-a-space-prefixed-line-is-context")
 }
 
 func c13CommentsSkipped(r *an.Run) {
